@@ -79,6 +79,13 @@ CHECKS['C19'] = (_H + '; real borrowers over a real directory with every extensi
                  'All borrower lists <=2 (flavour x per-module answers) x failure placements x noDeps x genTexts x ignoreErrors x '
                  'requests: borrowing only for unbuilt modules, list order, flavour filter, verbatim payload, requested modules '
                  'eligible under noDeps; PyFileBorrower/AnyFileBorrower serve only their own extensions.', '5.C19')
+CHECKS['C18'] = ('explicit-state breadth-first search over index documents produced by the real genIndex() / buildIndex(), '
+                 'invariants evaluated in every reached state',
+                 'States = (canonical index document, facts indexed so far); transitions = index a module with an ordered OID '
+                 'tuple from a menu with digit-sharing sibling arcs and nested subtrees, on top of the state; BFS to depth 3 with '
+                 'deduplication; in every state: identity/enterprise/compliance entries present, every indexed OID covered by a '
+                 'component-wise prefix naming its module, modules listed only under OIDs they define, re-indexing is a no-op.',
+                 '5.C18')
 NOT_YET = {}
 
 ALL = ['C%02d' % i for i in range(1, 21)]
